@@ -45,9 +45,30 @@ type c09Reply struct {
 	Closed bool   `json:"closed"`
 }
 
+// c09Focus returns the scope-A user with the most services (own and through groups), "" if none has two.
+func c09Focus(w cfggen.World) string {
+	best, bestN := "", 1
+	var names []string
+	users := w.Cfg.ScopeUsers(cfggen.ScopeA)
+	for n := range users {
+		names = append(names, n)
+	}
+	sortStrings(names)
+	for _, n := range names {
+		k := len(users[n].User.Services)
+		for _, g := range users[n].User.Groups {
+			k += len(g.Services)
+		}
+		if k > bestN {
+			best, bestN = n, k
+		}
+	}
+	return best
+}
+
 func genC09Script(t *rapid.T, w cfggen.World, session uint32) c09Script {
-	switch rapid.IntRange(0, 5).Draw(t, "script_kind") {
-	case 0: // command / session authorization
+	switch rapid.IntRange(0, 6).Draw(t, "script_kind") {
+	case 0, 6: // command / session authorization
 		var names []string
 		for n := range w.Cfg.ScopeUsers(cfggen.ScopeA) {
 			names = append(names, n)
@@ -58,7 +79,36 @@ func genC09Script(t *rapid.T, w cfggen.World, session uint32) c09Script {
 		for _, a := range args {
 			margs = append(margs, model.B(a))
 		}
-		body := model.AuthorRequest{Method: 6, Priv: 1, AType: 1, Service: 1, User: model.B(rapid.SampledFrom(append(names, "mallory")).Draw(t, "author_user")), Port: b("tty0"), RemAddr: b("r"), Args: margs}.Encode()
+		user := rapid.SampledFrom(append(names, "mallory")).Draw(t, "author_user")
+		if f := c09Focus(w); f != "" && rapid.Bool().Draw(t, "author_focus_user") {
+			user = f // several sessions of the one user who has several services
+		}
+		// half of the time the request names one of the services configured for that user (own or through a
+		// group), as a session authorization, so that two sessions of one user ask for different services
+		if eu, ok := w.Cfg.ScopeUsers(cfggen.ScopeA)[user]; ok && rapid.Bool().Draw(t, "author_own_service") {
+			svcs := append([]cfggen.Service{}, eu.User.Services...)
+			for _, g := range eu.User.Groups {
+				svcs = append(svcs, g.Services...)
+			}
+			if len(svcs) > 0 {
+				sv := svcs[rapid.IntRange(0, len(svcs)-1).Draw(t, "author_service")]
+				margs = []model.B{model.B("service=" + sv.Name)}
+				if rapid.Bool().Draw(t, "author_empty_cmd") {
+					margs = append(margs, b("cmd="))
+				}
+				for _, mv := range sv.Match {
+					if len(mv.Values) > 0 {
+						margs = append(margs, model.B(mv.Name+"="+mv.Values[0]))
+					}
+				}
+				for _, v := range sv.SetValues {
+					if rapid.Bool().Draw(t, "author_names_value") {
+						margs = append(margs, model.B(v.Name+"*"))
+					}
+				}
+			}
+		}
+		body := model.AuthorRequest{Method: 6, Priv: 1, AType: 1, Service: 1, User: model.B(user), Port: b("tty0"), RemAddr: b("r"), Args: margs}.Encode()
 		return c09Script{Kind: "author", Type: 2, Session: session, Pkts: []c09Pkt{{Body: body}}}
 	case 1: // accounting
 		var names []string
